@@ -1,16 +1,16 @@
 import DadiVerif.Lemmas.FileFormat
 import Mathlib.Data.List.TakeWhile
 /-!
-# C14: the TRANSLATED readers equal the hand-written normal forms
+# C14: lemmas about the primitives the TRANSLATED readers are made of
 
 `Gen.FileIO.fromFile` / `Gen.FileIO.arrayFromFile` (Generated/FileIO.lean) are produced statement by statement from the
 bodies of `Spectrum.from_file` / `Numerics.array_from_file` by tools/gen_FileIO.py: `readline` on a file object, the two
 `while` loops, the lambda-lifted `if` blocks, `numpy.fromstring` / `numpy.fromfile` / `reshape`, the constructor call bound
-against the signature of `Spectrum.__new__`.  This file proves them equal — for every text and every `mask_corners` — to
-`FileFormat.fromFileSpec` / `FileFormat.arrayFromFileSpec` (Model/FileFormat.lean), the normal forms on which the round-trip lemmas
-of Lemmas/FileRoundTrip.lean are stated.  Any change of a translated statement (labels from whitespace tokens, another
-comment stripping, data read with `fromfile`, another default of the constructor call …) changes the generated term and
-breaks these equalities, hence every `C14_*` theorem about the readers.
+against the signature of `Spectrum.__new__`.  Props/C14.lean (`C14_reader_*`) proves them equal — for every text and every
+`mask_corners` — to `FileFormat.fromFileSpec` / `FileFormat.arrayFromFileSpec` (Model/FileFormat.lean), the normal forms on
+which the round-trip lemmas of Lemmas/FileRoundTrip.lean are stated.  This file holds what those proofs need about the
+model-level primitives only (`split`/`strip`, `readline`, the comment loop, the scanning loop against `scanDims`,
+`readCount`); it mentions no generated definition, so it builds whatever the current source looks like.
 -/
 set_option linter.unusedVariables false
 set_option linter.unusedSimpArgs false
@@ -117,11 +117,6 @@ theorem whileStartsWith_hash (f : Str → Str) (ls : List Str) : ∀ cs : List S
 
 /-! ## the header block -/
 
-theorem fromFile_if2_eq (line : Str) (toks : List Str) (n : Nat) :
-    fromFile_if2 line toks n = some (if toks.length > n + 1 then some (odds (splitOnC QUOTE line)) else none) := by
-  unfold fromFile_if2
-  by_cases h : toks.length > n + 1 <;> simp [h, QUOTE]
-
 theorem flag_ne : UNFOLDED ≠ FOLDED := by decide
 
 /-- the scanning loop of the generated reader against `scanDims` -/
@@ -180,47 +175,6 @@ theorem scanDims_shape (ts : List Str) : ∀ (ds : List Nat) (f : Bool) (after :
             simp only [List.length_cons, List.getElem?_cons_succ]
             exact ⟨this.1, by omega⟩
 
-/-- the lambda-lifted header block of the generated reader IS `parseHeader` -/
-theorem fromFile_if1_eq (line : Str) : fromFile_if1 line (splitWs line) = parseHeader line := by
-  unfold fromFile_if1 parseHeader
-  generalize splitWs line = toks
-  have hF : (['f', 'o', 'l', 'd', 'e', 'd'] : Str) = FOLDED := rfl
-  have hU : (['u', 'n', 'f', 'o', 'l', 'd', 'e', 'd'] : Str) = UNFOLDED := rfl
-  simp only [hU]
-  simp only [hF]
-  by_cases hc : (!toks.contains FOLDED && !toks.contains UNFOLDED) = true
-  · simp only [hc, if_true]
-    cases toks.mapM parseInt <;> rfl
-  · simp only [hc, if_false, Bool.false_eq_true]
-    cases toks with
-    | nil => rfl
-    | cons t0 ts =>
-      simp only [idx, List.getElem?_cons_zero, Option.bind_some]
-      cases hp : parseInt t0 with
-      | none => rfl
-      | some d0 =>
-        simp only [Option.bind_some, whileNotInAppendInt, List.drop_succ_cons, List.drop_zero, scanInts_scanDims]
-        cases hs : scanDims ts with
-        | none => rfl
-        | some r =>
-          obtain ⟨ds, f, after⟩ := r
-          obtain ⟨hflag, hlen⟩ := scanDims_shape ts ds f after hs
-          simp only [Option.map_some, Option.bind_some, List.singleton_append]
-          have hi : (t0 :: ts)[1 + ds.length]? = some (if f then FOLDED else UNFOLDED) := by
-            rw [Nat.add_comm, List.getElem?_cons_succ]; exact hflag
-          rw [hi]
-          simp only [Option.bind_some, fromFile_if2_eq]
-          have hfold : ((if f then FOLDED else UNFOLDED) == FOLDED) = f := by
-            cases f
-            · simp [flag_ne]
-            · simp
-          rw [hfold]
-          have hgt : ((t0 :: ts).length > 1 + ds.length + 1) = ¬ (after.isEmpty = true) := by
-            simp only [List.length_cons, hlen, List.isEmpty_iff]
-            cases after <;> simp <;> omega
-          simp only [hgt]
-          cases after <;> simp
-
 /-! ## data and mask lines -/
 
 theorem readCount_length (n : Nat) (toks d : List Str) (h : readCount n toks = some d) : d.length = n := by
@@ -230,84 +184,5 @@ theorem readCount_length (n : Nat) (toks d : List Str) (h : readCount n toks = s
   · simp only [Option.some.injEq] at h
     subst h
     simp only [List.length_take]; omega
-
-/-- the mask block followed by the conversion of the constructor argument -/
-theorem mask_block (shape : List Nat) (hs : shape ≠ []) (l : Str) :
-    (fromFile_if3 shape (strip l)).bind maskArg
-      = maskOfLine (prodL shape) (splitWs l) := by
-  unfold maskOfLine
-  unfold fromFile_if3
-  rw [strip_isEmpty]
-  by_cases h : splitWs l = []
-  · simp [h, maskArg]
-  · simp only [h, decide_false, Bool.false_eq_true, if_false, npProdCount, if_neg hs, Option.bind_some, fromstring,
-      splitWs_strip]
-    cases hr : readCount (prodL shape) (splitWs l) with
-    | none => rfl
-    | some ts =>
-      have := readCount_length _ _ _ hr
-      simp [reshape, this, maskArg]
-
-/-! ## the whole readers -/
-
-/-- **the translated `Spectrum.from_file` equals the hand-written normal form** -/
-theorem fromFile_generated (mc : Bool) (text : Str) : Gen.FileIO.fromFile mc text = fromFileSpec mc text := by
-  unfold Gen.FileIO.fromFile fromFileSpec openText
-  generalize linesOf (univNL text) = ls
-  simp only [readline_eq]
-  have hw := whileStartsWith_hash (fun line => strip (List.drop 1 line)) ls []
-  simp only [List.nil_append] at hw
-  rw [hw]
-  simp only [fromFile_if1_eq, lineAt, List.drop_zero, List.drop_drop, Nat.reduceAdd]
-  have hcm : (fun line => strip (List.drop 1 line)) = commentOf := rfl
-  rw [hcm]
-  generalize ls.dropWhile startsHash = rest
-  cases hh : parseHeader (rest.headD []) with
-  | none => rfl
-  | some r =>
-    obtain ⟨shape, folded, labels⟩ := r
-    simp only [Option.bind_some]
-    by_cases hs : shape = []
-    · simp [hs, npProdCount]
-    · simp only [npProdCount, if_neg hs, Option.bind_some, fromstring, splitWs_strip]
-      cases hr : readCount (prodL shape) (splitWs ((rest.drop 1).headD [])) with
-      | none => rfl
-      | some data =>
-        have hlen := readCount_length _ _ _ hr
-        simp only [Option.bind_some, reshape, hlen, if_true]
-        have hm := mask_block shape hs ((rest.drop 2).headD [])
-        rw [← Option.bind_assoc, hm]
-        cases hmask : maskOfLine (prodL shape) (splitWs ((rest.drop 2).headD [])) with
-        | none => rfl
-        | some mask =>
-          simp only [Option.bind_some]
-          cases construct (PyVal.arr shape data) mask (PyVal.bool mc) (PyVal.bool folded) (PyVal.bool true)
-            (labelsVal labels) PyVal.none <;> rfl
-
-/-- **the translated `Numerics.array_from_file` equals the hand-written normal form** -/
-theorem arrayFromFile_generated (text : Str) : Gen.FileIO.arrayFromFile text = arrayFromFileSpec text := by
-  unfold Gen.FileIO.arrayFromFile arrayFromFileSpec openText
-  generalize linesOf (univNL text) = ls
-  simp only [readline_eq]
-  have hw := whileStartsWith_hash (fun line => strip (List.drop 1 line)) ls []
-  simp only [List.nil_append] at hw
-  rw [hw]
-  simp only [lineAt, List.drop_zero]
-  have hcm : (fun line => strip (List.drop 1 line)) = commentOf := rfl
-  rw [hcm]
-  generalize ls.dropWhile startsHash = rest
-  cases hh : (splitWs (rest.headD [])).mapM parseInt with
-  | none => rfl
-  | some shape =>
-    simp only [Option.bind_some]
-    by_cases hs : shape = []
-    · simp [hs, npProdCount]
-    · simp only [npProdCount, if_neg hs, Option.bind_some, fromfileText, reshape, List.length_take]
-      generalize splitWs (rest.drop 1).flatten = toks
-      by_cases hlt : toks.length < prodL shape
-      · have : ¬ (min (prodL shape) toks.length = prodL shape) := by omega
-        simp only [if_pos hlt, if_neg this]; rfl
-      · have : min (prodL shape) toks.length = prodL shape := by omega
-        simp only [if_neg hlt, if_pos this]; rfl
 
 end DadiVerif.FileFormat
